@@ -314,7 +314,10 @@ impl<'t, 'd> Gen<'t, 'd> {
             } else {
                 vec![]
             };
+            // the statements of a file may stand in any order
+            let sty = if self.cfg.spellings && self.t.chance(1, 3) { self.t.below(64) as u8 } else { 0 };
             self.prog.mods.push(Mod {
+                sty,
                 path,
                 doc,
                 ..Default::default()
